@@ -87,7 +87,7 @@ class PolicyIteration(Plans):
                 state_value=state_values,
                 action_value=action_values,
                 converged=iterations < (self.max_iterations - 1),
-                initial_value=sum([state_values[s]*p for s, p in mdp.initial_state_dist().items()]),
+                initial_value=sum([state_values[s]*p for s, p in mdp.initial_state_dist().items() if p != 0]),
                 policy=policy
             ))
         return results
